@@ -17,7 +17,7 @@ import (
 
 const (
 	c26N       = 4 // packets
-	c26Scratch = 3 // mmsghdr entries (and iovecs) per chunk
+	c26Scratch = 2 // mmsghdr entries (and iovecs) per chunk
 	c26Script  = 4 // kernel answers
 )
 
@@ -28,13 +28,18 @@ func VerifC26WriteBatch() {
 	w := &batchWriter{fd: -1, isV4: verifBool("sock_v4"), l: c26Log}
 	w.gsoSupported = verifBool("gso")
 	w.maxGSOSegments = 2 + verifInt("extra_segs", 0, 1)
+	bIsV4 := verifBool("b_is_v4")
+	if verifCase("focus") == 1 {
+		// the offload-replay family: v4 socket with GSO, 2-segment limit, one of the two destinations unroutable (v6)
+		verifAssume(w.isV4 && w.gsoSupported && w.maxGSOSegments == 2 && !bIsV4)
+	}
 	w.prepareWriteMessages(c26Scratch, true)
 	gso0 := w.gsoSupported
 
 	// batch: arbitrary lengths (0..70000), destinations from two addresses of arbitrary families
 	dstA := netip.AddrPortFrom(netip.AddrFrom4([4]byte{10, 0, 0, 1}), 4242)
 	dstB := netip.AddrPortFrom(netip.AddrFrom16([16]byte{0xfd, 15: 2}), 4243)
-	if verifBool("b_is_v4") {
+	if bIsV4 {
 		dstB = netip.AddrPortFrom(netip.AddrFrom4([4]byte{10, 0, 0, 2}), 4242)
 	}
 	lenN := [c26N]string{"len0", "len1", "len2", "len3"}
@@ -50,6 +55,9 @@ func VerifC26WriteBatch() {
 		bufs = append(bufs, backing[:lens[i]])
 		first[i] = &backing[0]
 		toB[i] = verifBool(dstN[i])
+		if verifCase("focus") == 1 {
+			verifAssume(toB[i] == (i == 0)) // first datagram unroutable, the rest to one destination
+		}
 		if toB[i] {
 			addrs = append(addrs, dstB)
 		} else {
@@ -60,6 +68,12 @@ func VerifC26WriteBatch() {
 	// kernel script
 	sentScript := verifWords("sent", c26Script)
 	errScript := verifBytes("errno", c26Script)
+	if verifCase("debug") == 1 {
+		verifAssume(w.isV4 && gso0 && w.maxGSOSegments == 2 && dstB.Addr().Is6())
+		verifAssume(lens[0] == 500 && toB[0] && lens[1] == 700 && !toB[1] && lens[2] == 1200 && !toB[2] && lens[3] == 1200 && !toB[3])
+		verifAssume(sentScript[0] == 1 && sentScript[1] == 0 && sentScript[2] == 2 && sentScript[3] == 1)
+		verifAssume(errScript[0] == 0 && errScript[1] == 1 && errScript[2] == 0 && errScript[3] == 0)
+	}
 	calls := 0
 	accepted := 0 // packets in entries the kernel accepted
 	var handed [c26N]int // how often each packet was in an accepted entry
@@ -140,6 +154,14 @@ func VerifC26WriteBatch() {
 		verifAssert(false, "EIO is absorbed (GSO disabled, run replayed), never returned")
 	}
 	verifObserve("written", uint64(written))
+	verifObserve("accepted", uint64(accepted))
+	verifObserve("calls", uint64(calls))
+	verifObserve("handed1", uint64(handed[1]))
+	var g uint64
+	if w.gsoSupported {
+		g = 1
+	}
+	verifObserve("gso_after", g)
 }
 
 // VerifC26PlanRun: one planRun decision from an arbitrary position: the run it plans is valid and maximal-prefix.
